@@ -459,9 +459,9 @@ ITER_IN_T = dict(params=['graph', 'node', 'edge_type'], types={}, returns=f'List
 DEG3 = 'Tuple[Optional[List[Int]],Optional[Int],Optional[Real]]'
 MEMBER_OF = f"exists('e:{EDGE}', e in graph.edge_set and e[0] == x and e[1] == self and e[3] == EdgeType.DERIVES)"
 # variant: the call shape of every call site in the library (DSG._update_connector_grouping_degrees, _get_assign_nodes,
-# get_unconnected_connectors, BasicDSG): no `existing_nodes` filter.  With a filter set the path condition contains the
-# member list as a lambda term under the quantified facts of the filtering comprehension; z3 gives `unknown` at once
-# (incomplete array theory) and cvc5 does not take lambdas -- that call shape is left to the bounded layer.
+# get_unconnected_connectors, BasicDSG): no `existing_nodes` filter; the variant with a filter follows below.  Both need
+# `comprehension_as_array`: with the member list as a lambda term under the quantified facts of the comprehensions z3
+# answers `unknown` at once (incomplete array theory) and cvc5 does not take lambdas.
 CONTRACTS[N_ + 'ConnectorDegreeGroupingNode.update_deg@whole-graph'] = dict(
     properties=['C11', 'C08'],
     requires={'no-existence-filter': 'existing_nodes is None'},
@@ -494,7 +494,7 @@ CONTRACTS[N_ + 'ConnectorDegreeGroupingNode.update_deg@whole-graph'] = dict(
 )
 
 
-def _domain_update_deg(n):
+def _domain_update_deg(n, with_filter=False):
     import random, os
     import networkx as nx
     from adsg_core.graph.graph_edges import EdgeType, add_edge, HashableDict
@@ -525,17 +525,23 @@ def _domain_update_deg(n):
 
         class G:
             edge_set = es
-        env = {'self': grp, 'graph': G, 'existing_nodes': None, 'EdgeType': EdgeType,
+        existing = None
+        if with_filter:
+            pool = members + others
+            existing = set(rng.sample(pool, rng.randint(0, len(pool)))) if pool else set()
+        env = {'self': grp, 'graph': G, 'existing_nodes': existing, 'EdgeType': EdgeType,
                'COMBINED': (lambda cs: tuple(ConnectorDegreeGroupingNode.get_combined_deg(list(cs)))),
                }
 
-        def call(grp=grp, g=g):
+        def call(grp=grp, g=g, existing=existing):
             from pyvc.replay import SegmentResult
-            grp.update_deg(g)
-            cs = [e[0] for e in g.in_edges(grp, keys=True, data=True) if e[3].get('type') == EdgeType.DERIVES]
+            grp.update_deg(g, existing) if existing is not None else grp.update_deg(g)
+            cs = [e[0] for e in g.in_edges(grp, keys=True, data=True) if e[3].get('type') == EdgeType.DERIVES
+                  and (existing is None or e[0] in existing)]
             return SegmentResult(None, {'connectors': cs}, False)
         yield (env, call, {'Ref': members + others + [grp], EDGE: list(es)},
-               f'update_deg: members {[(m.name, m.deg_list, m.repeated_allowed) for m in members]}, non-members {[o.name for o in others]}')
+               f'update_deg: members {[(m.name, m.deg_list, m.repeated_allowed) for m in members]}, non-members {[o.name for o in others]}'
+               + (f', existing {sorted(x.name for x in existing)}' if existing is not None else ''))
 
 
 DOMAIN[N_ + 'ConnectorDegreeGroupingNode.update_deg@whole-graph'] = _domain_update_deg
@@ -576,3 +582,11 @@ def _domain_is_valid(n):
 
 
 DOMAIN[N_ + 'ConnectorNode.is_valid'] = _domain_is_valid
+
+
+# second call shape: with an existence filter (public API; the library's own call sites pass none)
+CONTRACTS[N_ + 'ConnectorDegreeGroupingNode.update_deg@existing-subset'] = dict(
+    CONTRACTS[N_ + 'ConnectorDegreeGroupingNode.update_deg@whole-graph'],
+    requires={'existence-filter-given': 'existing_nodes is not None'},
+)
+DOMAIN[N_ + 'ConnectorDegreeGroupingNode.update_deg@existing-subset'] = (lambda n: _domain_update_deg(n, with_filter=True))
